@@ -31,8 +31,8 @@ func fieldIndex(t reflect.Type) map[string]int {
 }
 
 // UnionHook, when set, builds the value of a union attribute (an interface-typed struct field with
-// methods) from a {"$union": alternative, "$value": v} node. The gRPC driver sets it (it knows the Go
-// types of the alternatives from its registry); when nil unions are refused as before.
+// methods) from a {"$union": alternative, "$value": v} node. The gRPC driver and the HTTP driver (union.go) set
+// it (they know the Go types of the alternatives from their registries); when nil unions are refused.
 var UnionHook func(dst reflect.Value, field, alt string, val any) error
 
 // Build constructs a value of type t from a canonical tree.
